@@ -285,8 +285,14 @@ def gen_args(fn, rng):
         dtraj = np.array([c["dth"] for _ in range(Nn)])
         ddtraj = np.zeros((Nn, n))
         Fmat = np.array([[rng.uniform(-1, 1) for _ in range(6)] for _ in range(Nn)])
+        # the controller's model (gtilde, Mtildelist, Gtildelist) differs from the simulated robot in every part, so that
+        # an argument used in the wrong role shows
+        Mt = np.array(c["M"], dtype=float).copy()
+        for i in range(Mt.shape[0]):
+            Mt[i] = Mt[i] @ rf.taa_to_tm([rng.uniform(-0.05, 0.05) for _ in range(3)] + [rng.uniform(-0.1, 0.1) for _ in range(3)])
+        Gt = np.array(c["G"], dtype=float) * np.array([rng.uniform(0.8, 1.25) for _ in range(len(c["G"]))]).reshape((-1, 1, 1))
         return "%s|N=%d" % (cls, Nn), [c["th"], c["dth"], c["g"], Fmat, c["M"], c["G"], c["S"], traj, dtraj, ddtraj,
-                                       c["g"] * 0.9, c["M"], c["G"], 5.0, 1.0, 2.0, 0.01, rng.choice([1, 2])]
+                                       c["g"] * 0.9, Mt, Gt, 5.0, 1.0, 2.0, 0.01, rng.choice([1, 2])]
     if fn == "VelQuadraticForces":
         return cls, [c["th"], c["dth"], c["M"], c["G"], c["S"]]
     if fn == "se3ToVec":
